@@ -138,7 +138,7 @@ def _init_unproved():
 _init_unproved()
 NAME_MODES = ['str', 'int0', 'empty0', 'person']
 REQUIRED_COUNTERS = (['score_fraction_counts', 'score_large_factor', 'scale', 'near_tie', 'equal_rational', 'beyond_2^53', 'modelled',
-                      'lr_equal_remainders', 'approval_later_seat_level', 'threshold_boundary', 'coef_tie', 'coef_as_decimal', 'coef_as_float', 'exact_half_or_quota', 'odd_total_half', 'even_factor']
+                      'lr_equal_remainders', 'pure_total_below_one', 'approval_later_seat_level', 'threshold_boundary', 'coef_tie', 'coef_as_decimal', 'coef_as_float', 'exact_half_or_quota', 'odd_total_half', 'even_factor']
                      + ['m:' + f for f in PROVED_FAMILIES])      # every proved family is also run through its Lean model
 RULE = ('every scale-free evaluator family of the quantifier (plurality, divisor methods, largest remainder with exact quotas, '
         'Condorcet methods, STV-Gregory with Hare quota, Bucklin/Oklahoma, positional, approval, score, majority judgment, STAR, '
@@ -224,6 +224,21 @@ def generate(rng, tier):
                 k = (BIG_MULTIPLIERS + [3 * 10 ** 40 + 1, 2 ** 60 + 100, 10 ** 6, 7])[t % (len(BIG_MULTIPLIERS) + 4)]
                 yield {'op': 'scale', 'family': f.name, 'prof': prof, 'n': 2, 'k': str(k),
                        '_tags': ['scale', 'approval_later_seat_level'] + (['beyond_2^53'] if k > 2 ** 53 else [])}
+    # exact proportional shares of RATIONAL vote counts whose total lies below one vote (alone, or after a cap / floor has fixed
+    # the larger parties): an absolute "one vote" constant in a scale-free quotient shows only there
+    for f in F:
+        if f.name.startswith('pure_proportionality'):
+            for t in range(16 if tier == 'quick' else 160):
+                d = rng.choice([12, 24, 60])
+                parts = sorted(rng.sample(range(1, d), 3), reverse=True)
+                vals = [Fraction(x, d * rng.choice([1, 2, 5])) for x in parts]
+                if t % 3 == 0:
+                    vals[0] = vals[0] + rng.randint(3, 9)          # one large party: the others' total stays below one
+                order = [0, 1, 2]
+                rng.shuffle(order)
+                k = [2, 3, 12, 10 ** 6, 10 ** 25 + 7, 7][t % 6]
+                yield {'op': 'scale', 'family': f.name, 'prof': [[i, num_str(vals[i])] for i in order], 'n': rng.choice([4, 11, 20]),
+                       'k': str(k), '_tags': ['scale', 'pure_total_below_one'] + (['beyond_2^53'] if k > 2 ** 53 else [])}
     # exactly half is not a majority, exactly the quota is the quota - at magnitudes where a float quota is off by 10^9:
     # Bucklin/Oklahoma: the first choice of exactly half of the voters, everybody's second choice wins in round 2;
     # STV-Gregory-Hare: a candidate holding exactly the Hare quota on first preferences
